@@ -218,7 +218,7 @@ pub fn run(ctx: &Ctx) -> Report {
         }
     });
     rep.merge(r);
-    if !ctx.miri && ctx.only.is_none() {
+    if ctx.strict() {
         for k in ["expect_on_query", "expect_on_prepare", "expect_on_init", "expect_on_execute", "expect_on_close", "expect_builtin_answer", "expect_quit", "expect_invalid_utf8_rejection"] {
             rep.require(k, 1);
         }
